@@ -489,6 +489,41 @@ def field_order_harness(e):
     return {"order": list(order)}
 
 
+_MI: dict[str, Any] = {}
+
+
+def mi_harness(e):
+    """Classes with two node bases / empty bodies: the digest must cover the fields of every base,
+    whichever class of the family was used first."""
+    from models import classgen as G
+    from models.zoo import VLeaf
+
+    reset_all()
+    first = e.pick(["MNamed", "MBodied", "MFunc", "MEmpty"], "class_used_first")
+    if _MI.get("first") != first:
+        tag, C = G.make_mi_classes()
+        _MI.clear()
+        _MI.update(first=first, C=C)
+    C = _MI["C"]
+    for k in [first] + sorted(C):
+        C[k]()
+    F = C[e.pick(["MFunc", "MEmpty", "MOverride"], "class")]
+    has_body = "body" in F.__dataclass_fields__
+    variants = [
+        ("base", {}), ("label", {"label": 7}), ("name_kid", {"name_kid": VLeaf(v=1)}), ("name_kid-other", {"name_kid": VLeaf(v=2)}),
+    ] + ([("body", {"body": (VLeaf(v=1),)}), ("body-other", {"body": (VLeaf(v=2),)}), ("body-two", {"body": (VLeaf(v=1), VLeaf(v=2))}), ("flag-noncompare", {"flag": 9})] if has_body else [])
+    i = e.choice(len(variants), "left")
+    j = e.choice(len(variants), "right")
+    x, y = F(**variants[i][1]), F(**variants[j][1])
+    noncmp = {"flag-noncompare", "base"} | ({"label"} if F.__name__.startswith("MOverride") else set())
+    same = i == j or ({variants[i][0], variants[j][0]} <= noncmp)
+    got = (x.content_id == y.content_id, x.is_equal(y))
+    if got != (same, same):
+        e.fail("multiple-inheritance:" + ("equal-content-different-id" if same else "different-content-same-id"), scenario={"class_used_first": first, "class": F.__name__, "left": variants[i][0], "right": variants[j][0], "content_id_equal": got[0], "is_equal": got[1]})
+    e.distinct((first, F.__name__, i, j))
+    return {"first": first, "class": F.__name__, "pair": (variants[i][0], variants[j][0])}
+
+
 def spec(tier: str, seed: int) -> Spec:
     n_pairs, n_edit = (3, 4) if tier == "quick" else (4, 6)
     small = all_shapes(n_pairs, 3)
@@ -501,6 +536,7 @@ def spec(tier: str, seed: int) -> Spec:
     fams.append(Family("all-pairs", make_pairs_harness(small), variables="selectors: two recipes"))
     fams.append(Family("special-pairs", special_harness, variables="selector: pair from a pool of value-level cases"))
     fams.append(Family("field-order", field_order_harness, variables="selector: declaration order of the class"))
+    fams.append(Family("multiple-inheritance", mi_harness, variables="selectors: class used first, class, two value variants"))
     return Spec(
         families=fams,
         obligation_runners=[_z_runner],
